@@ -19,6 +19,9 @@ pub enum TimeVal {
   Past(u64, u32, Rendering),
   /// now + delta seconds (delta >= 60)
   Future(u64, u32, Rendering),
+  /// an absolute instant (seconds since the epoch, nanoseconds); past or future is decided against the clock at check
+  /// time, instants inside the (now - 2 s, now + 60 s) margin are discarded
+  Abs(i64, u32, Rendering),
   /// present, non-null, not an RFC 3339 timestamp string
   NotATimestamp(Value),
 }
@@ -30,7 +33,23 @@ impl TimeVal {
       TimeVal::Null => "null",
       TimeVal::Past(..) => "past",
       TimeVal::Future(..) => "future",
+      TimeVal::Abs(..) => "absolute",
       TimeVal::NotATimestamp(_) => "not-a-timestamp",
+    }
+  }
+  /// resolve an absolute instant into Past/Future relative to `now` (None inside the margin)
+  fn resolve(&self, now: (i64, u32)) -> Option<TimeVal> {
+    match self {
+      TimeVal::Abs(s, n, r) => {
+        if *s <= now.0 - 3 {
+          Some(TimeVal::Past((now.0 - *s) as u64, *n, r.clone()))
+        } else if *s >= now.0 + 61 {
+          Some(TimeVal::Future((*s - now.0) as u64, *n, r.clone()))
+        } else {
+          None
+        }
+      }
+      other => Some(other.clone()),
     }
   }
   /// JSON value to place in the payload (None = member absent) and whether the rendering is strict RFC 3339
@@ -40,6 +59,7 @@ impl TimeVal {
       TimeVal::Null => (Some(Value::Null), true),
       TimeVal::Past(d, n, r) => (Some(Value::String(tgen::render(now.0 - *d as i64, *n, r))), r.strict()),
       TimeVal::Future(d, n, r) => (Some(Value::String(tgen::render(now.0 + *d as i64, *n, r))), r.strict()),
+      TimeVal::Abs(s, n, r) => (Some(Value::String(tgen::render(*s, *n, r))), r.strict()),
       TimeVal::NotATimestamp(v) => (Some(v.clone()), true),
     }
   }
@@ -83,6 +103,7 @@ fn want_exp(v: &TimeVal, strict: bool) -> Want {
       }
     }
     TimeVal::NotATimestamp(_) => Want::Reject,
+    TimeVal::Abs(..) => Want::DontCare,
   }
 }
 fn want_nbf(v: &TimeVal, strict: bool) -> Want {
@@ -98,6 +119,7 @@ fn want_nbf(v: &TimeVal, strict: bool) -> Want {
       }
     }
     TimeVal::NotATimestamp(_) => Want::Reject,
+    TimeVal::Abs(..) => Want::DontCare,
   }
 }
 
@@ -110,8 +132,14 @@ impl Sub for DefaultTimeRules {
     let pid = self.pid;
     let p = c.proto;
     let now = tgen::now();
+    // absolute instants are rendered as they are and classified against the clock
     let (exp, exp_strict) = c.exp.materialise(now);
     let (nbf, nbf_strict) = c.nbf.materialise(now);
+    let (c_exp, c_nbf) = match (c.exp.resolve(now), c.nbf.resolve(now)) {
+      (Some(e), Some(n)) => (e, n),
+      _ => return Verdict::Discard,
+    };
+    let absolute = matches!(c.exp, TimeVal::Abs(..)) || matches!(c.nbf, TimeVal::Abs(..));
     let mut obj = serde_json::Map::new();
     for (k, v) in &c.extra {
       if k != "exp" && k != "nbf" {
@@ -132,8 +160,9 @@ impl Sub for DefaultTimeRules {
       Err(_) => return Verdict::Discard,
     };
     cl.tag(format!("{}", p.label()));
-    cl.tag(format!("exp:{} nbf:{}", c.exp.class(), c.nbf.class()));
-    for v in [&c.exp, &c.nbf] {
+    cl.tag(format!("exp:{} nbf:{}", c_exp.class(), c_nbf.class()));
+    if absolute { cl.tag("absolute-special-instant"); }
+    for v in [&c_exp, &c_nbf] {
       match v {
         TimeVal::Past(d, _, r) | TimeVal::Future(d, _, r) => {
           cl.tag(r.class());
@@ -143,13 +172,13 @@ impl Sub for DefaultTimeRules {
         _ => {}
       }
     }
-    cl.nontrivial(!matches!(c.exp, TimeVal::Absent) || !matches!(c.nbf, TimeVal::Absent));
+    cl.nontrivial(!matches!(c_exp, TimeVal::Absent) || !matches!(c_nbf, TimeVal::Absent));
     let mut parser = new_parser(p, Layer::Prelude);
     if let Some(f) = c.footer.as_deref() {
       parser.footer(f);
     }
     let r = parser.parse(&token, &lk);
-    let (we, wn) = (want_exp(&c.exp, exp_strict), want_nbf(&c.nbf, nbf_strict));
+    let (we, wn) = (want_exp(&c_exp, exp_strict), want_nbf(&c_nbf, nbf_strict));
     let want = if we == Want::Reject || wn == Want::Reject {
       Want::Reject
     } else if we == Want::DontCare || wn == Want::DontCare {
@@ -167,8 +196,8 @@ impl Sub for DefaultTimeRules {
         Verdict::Pass
       }
       (Want::Reject, Ok(_)) => {
-        let which = if we == Want::Reject { format!("exp:{}", c.exp.class()) } else { format!("nbf:{}", c.nbf.class()) };
-        let detail_type = match (&c.exp, &c.nbf) {
+        let which = if we == Want::Reject { format!("exp:{}", c_exp.class()) } else { format!("nbf:{}", c_nbf.class()) };
+        let detail_type = match (&c_exp, &c_nbf) {
           (TimeVal::NotATimestamp(v), _) if we == Want::Reject => type_name(v),
           (_, TimeVal::NotATimestamp(v)) => type_name(v),
           _ => "timestamp",
@@ -177,7 +206,7 @@ impl Sub for DefaultTimeRules {
       }
       // (what JSON the parser returns on acceptance is C14's subject, not judged here)
       (Want::Accept, Ok(_)) => Verdict::Pass,
-      (Want::Accept, Err(e)) => vio!("{}:rejected-valid:{}:exp={}:nbf={}", pid, e.variant, c.exp.class(), c.nbf.class(); "the default parser rejected payload {} ({}): {}", payload, p.label(), e.text),
+      (Want::Accept, Err(e)) => vio!("{}:rejected-valid:{}:exp={}:nbf={}", pid, e.variant, c_exp.class(), c_nbf.class(); "the default parser rejected payload {} ({}): {}", payload, p.label(), e.text),
     }
   }
 }
@@ -225,8 +254,22 @@ fn future() -> BoxedStrategy<TimeVal> {
   (tgen::log_delta(60, max), 0u32..1_000_000_000, tgen::rendering()).prop_map(|(d, n, r)| TimeVal::Future(d, n, r)).boxed()
 }
 
+/// calendar and representation corner cases as absolute instants
+fn absolute() -> BoxedStrategy<TimeVal> {
+  let d = |y: i64, m: u32, dd: u32, secs: i64| tgen::days_from_civil(y, m, dd) * 86400 + secs;
+  let specials: Vec<i64> = vec![
+    d(1971, 1, 1, 0), d(1999, 12, 31, 86399), d(2000, 1, 1, 0), d(2000, 2, 29, 43200), d(2001, 9, 9, 6400), // 1e9
+    (1i64 << 31) - 1, 1i64 << 31, (1i64 << 31) + 1, (1i64 << 32) - 1, 1i64 << 32, d(2028, 2, 29, 0), d(2100, 2, 28, 86399), d(2100, 3, 1, 0),
+    d(2026, 12, 31, 86399), d(2027, 1, 1, 0), d(2400, 2, 29, 1), d(8999, 12, 31, 86399), d(3000, 1, 1, 0), d(1972, 6, 30, 86399), d(2016, 12, 31, 86399),
+    d(2038, 1, 19, 11647), d(2262, 4, 11, 85636), d(2262, 4, 11, 85637), // i64 nanoseconds overflow region
+  ];
+  (any::<u16>(), prop_oneof![Just(0u32), Just(1u32), Just(999_999_999u32), Just(500_000_000u32), 0u32..1_000_000_000], tgen::rendering(), -2i64..=2)
+    .prop_map(move |(i, n, r, delta)| TimeVal::Abs(specials[pick(i, specials.len())] + delta, n, r))
+    .boxed()
+}
+
 fn time_val() -> BoxedStrategy<TimeVal> {
-  prop_oneof![2 => Just(TimeVal::Absent), 1 => Just(TimeVal::Null), 6 => past(), 6 => future(), 4 => not_a_timestamp().prop_map(TimeVal::NotATimestamp)].boxed()
+  prop_oneof![2 => Just(TimeVal::Absent), 1 => Just(TimeVal::Null), 6 => past(), 6 => future(), 2 => absolute(), 4 => not_a_timestamp().prop_map(TimeVal::NotATimestamp)].boxed()
 }
 
 fn extras() -> BoxedStrategy<Vec<(String, Value)>> {
